@@ -75,6 +75,7 @@ type SchemaOpts struct {
 	SpecialNames   bool // allow members named "id" / "$schema"
 	NullHeavy      bool
 	NoDeps         bool
+	EmptyNames     bool // allow the empty string as a member name
 	NoComposition  bool
 	OnlyObjectRoot bool
 }
@@ -95,6 +96,9 @@ func (g *SchemaGen) feat(f string) {
 }
 
 func (g *SchemaGen) name() string {
+	if g.O.EmptyNames && g.R.P(0.06) {
+		return ""
+	}
 	for {
 		n := Names[g.R.Intn(len(Names))]
 		if !g.O.SpecialNames && (n == "id" || n == "$schema") {
